@@ -26,6 +26,13 @@ def mesh_pool(M, ctx):
     add(M.distort(M.screen(3), rng), "open")
     add(M.multitrace_cubes(), "multi-domain")
     add(M.distort(M.l_prism(), rng), "closed")
+    # the multitrace use case of swapped_normals: one domain is stored with reversed element orientation and every space on
+    # the grid names it in swapped_normals (the only grids on which BC/RBC accept a partial swap)
+    m = M.distort(M.refine(M.octahedron(), 1), rng)
+    m.D = np.where((m.V[2, m.E[0]] + m.V[2, m.E[1]] + m.V[2, m.E[2]]) < 0, 2, 1).astype(m.D.dtype)
+    m = M.flip_orientation(m, m.D == 2)
+    m.reversed = [2]
+    pool.append((m, "reversed-domain"))
     if not ctx.quick:
         add(M.distort(M.icosahedron(), rng), "closed")
         add(M.distort(M.refine(M.tetrahedron(), 1), rng), "closed")
@@ -72,6 +79,8 @@ def main():
                     continue
                 rng = ctx.rng(mesh.name, kind, degree, variant)
                 opts = S.random_opts(rng, mesh, kind, degree, variant)
+                if getattr(mesh, "reversed", None):
+                    opts["swapped_normals"] = list(mesh.reversed)
                 descr = {"mesh": mesh.describe(), "class": cls, "kind": kind, "degree": degree, "opts": S.opts_key(opts)}
                 with ctx.guard(cid, "space:%s%d" % (kind, degree), allow=S.ALLOWED_REJECTIONS):
                     if kind in ("BC", "RBC", "DUAL") and mesh.ne > (60 if ctx.quick else 200):
